@@ -32,8 +32,19 @@
 (*           on the delivered non-numeric value).  A NUMBER is never       *)
 (*           lenient: it arrives as the same number or is rejected.        *)
 (*                                                                         *)
+(*   dfl     positions (paths below the argument) where the value in v is  *)
+(*           an input FIELD default the server injected (the generator     *)
+(*           renders these into Go source; argument and variable defaults  *)
+(*           are read from the parsed schema / document at run time).      *)
+(*                                                                         *)
 (* Integers are boundary classes ordered by ClassSeq (TLC integers are 32  *)
-(* bit); the harness picks concrete representatives per class.             *)
+(* bit); the harness picks concrete representatives per class.  Floats     *)
+(* that are not "integer class + .0/.5" are NAMED classes (FloatNames):    *)
+(* fine fractions that need more than 6 decimals, tiny, denormal, huge.    *)
+(* They occur as DEFAULTS of input fields (also inside list and object     *)
+(* defaults), of arguments and of the arguments of a directive applied in  *)
+(* the schema (DfltArgs / DirSites): a defaulted position receives exactly *)
+(* the schema's default value.                                             *)
 (***************************************************************************)
 EXTENDS Integers, Sequences, FiniteSets, TLC, Json
 
@@ -61,6 +72,7 @@ AnyV   == [t |-> "any"]
 Bad    == [t |-> "bad"]
 I(c)     == [t |-> "int", c |-> c]                \* integer of class c (literal IntValue / JSON number)
 F(c, fr) == [t |-> "flt", c |-> c, fr |-> fr]     \* float: class c written with a fraction part; fr: + 0.5
+FX(c)    == [t |-> "fx", c |-> c]                 \* float of the NAMED class c (FloatNames)
 NS(c)    == [t |-> "nstr", c |-> c]               \* string holding the decimal digits of class c
 S(s)     == [t |-> "str", v |-> s]
 B(b)     == [t |-> "bool", v |-> b]
@@ -84,6 +96,10 @@ Boundary == Classes \ {"one", "two", "three", "five"}
 \* classes all of whose representatives are exactly representable as float64 (the harness picks them so)
 FloatExact == {"ltMin32", "min32", "m1", "zero", "one", "two", "three", "five", "seven", "max32", "gtMax32", "maxU32", "gtMaxU32"}
 
+\* named floats: fine7 0.1234567, fineBig 123456.7890123, negFine -0.0000012345 (more than 6 decimals),
+\* tiny 1e-7, denorm 5e-324 (smallest positive float64), huge 1e30, maxF 1.7976931348623157e308
+FloatNames == {"fine7", "fineBig", "negFine", "tiny", "denorm", "huge", "maxF"}
+
 (***************************************************************************)
 (* Named types of the probe schema                                         *)
 (***************************************************************************)
@@ -97,7 +113,10 @@ Fits(n, c)   == Within(c, NumRange[n][1], NumRange[n][2])
 Strict(n, c) == IF n = "Int" THEN Within(c, "min32", "max32") ELSE Fits(n, c)
 EnumNames == {"A", "B"}
 
-Fd(name, type, def, dir) == [name |-> name, type |-> type, def |-> def, dir |-> dir]
+\* dir: the pass-through directive @dchk is applied; fdir: NoDef or the arguments (an object) with which
+\* the directive @dflt (Float arguments, DfltArgs below) is applied at this definition
+Fd(name, type, def, dir)   == [name |-> name, type |-> type, def |-> def, dir |-> dir, fdir |-> NoDef]
+FdX(name, type, def, app)  == [name |-> name, type |-> type, def |-> def, dir |-> FALSE, fdir |-> app]
 InFields == << Fd("a", Nm("Int"), I("seven"), FALSE),
                Fd("b", NN(Nm("Int")), NoDef, FALSE),
                Fd("c", L(NN(Nm("Int"))), NoDef, FALSE),
@@ -108,10 +127,26 @@ InFields == << Fd("a", Nm("Int"), I("seven"), FALSE),
 InnerFields == << Fd("p", Nm("Int"), I("three"), FALSE),
                   Fd("q", NN(Nm("Int")), NoDef, FALSE),
                   Fd("l", L(Nm("Int")), NoDef, FALSE) >>
-InputNames == {"In", "InO", "InM", "Inner"}
-InputDef  == [In |-> InFields, InO |-> InFields, InM |-> InFields, Inner |-> InnerFields]
+\* Float DEFAULTS: nullable / non-null, a list default, an object default whose own missing field is
+\* defaulted again, an integral value (5.0) into Float and into the carrier-observing scalar K, and
+\* fields that carry the directive @dflt
+FlFields == << Fd("k", Nm("Int"), NoDef, FALSE),
+               Fd("u", Nm("Float"), FX("fine7"), FALSE),
+               Fd("v", NN(Nm("Float")), FX("tiny"), FALSE),
+               Fd("w", L(NN(Nm("Float"))), Ls(<<FX("fineBig"), F("five", FALSE), FX("huge"), FX("negFine")>>), FALSE),
+               Fd("o", Nm("FlIn"), O(<<KV("m", FX("fine7"))>>), FALSE),
+               Fd("y", Nm("K"), F("five", FALSE), FALSE),
+               FdX("h", Nm("Float"), FX("maxF"), O(<<KV("v", FX("fineBig")), KV("z", FX("denorm"))>>)) >>
+FlInFields == << FdX("m", Nm("Float"), FX("denorm"), O(<<KV("v", F("five", FALSE)), KV("w", FX("negFine"))>>)),
+                 Fd("n", NN(Nm("Float")), FX("fineBig"), FALSE),
+                 Fd("g", Nm("Float"), F("five", FALSE), FALSE) >>
+InputSeq   == <<"In", "InO", "InM", "Inner", "Fl", "FlM", "FlIn">>
+InputNames == {InputSeq[i] : i \in 1..Len(InputSeq)}
+InputDef  == [In |-> InFields, InO |-> InFields, InM |-> InFields, Inner |-> InnerFields,
+              Fl |-> FlFields, FlM |-> FlFields, FlIn |-> FlInFields]
 \* declared Go binding: struct (pointers), omit (every nullable field is graphql.Omittable), map (map[string]any)
-InputBind == [In |-> "struct", InO |-> "omit", InM |-> "map", Inner |-> "struct"]
+InputBind == [In |-> "struct", InO |-> "omit", InM |-> "map", Inner |-> "struct",
+              Fl |-> "struct", FlM |-> "map", FlIn |-> "struct"]
 FieldNames(n) == {InputDef[n][i].name : i \in 1..Len(InputDef[n])}
 
 (***************************************************************************)
@@ -131,22 +166,22 @@ CoerceNum(n, v) ==
 CoerceScalar(n, v, lit) ==
   CASE n \in IntTargets -> CoerceNum(n, v)
     [] n = "Float" ->
-         CASE v.t = "flt"  -> Leaf("ok", v)
+         CASE v.t \in {"flt", "fx"} -> Leaf("ok", v)
            [] v.t = "int"  -> IF v.c \in FloatExact THEN Leaf("ok", F(v.c, FALSE)) ELSE Leaf("soft", AnyV)
            [] v.t = "nstr" -> IF v.c \in FloatExact THEN Leaf("soft", F(v.c, FALSE)) ELSE Leaf("soft", AnyV)
            [] OTHER -> Err
     [] n = "String" ->
          CASE v.t \in {"str", "nstr"} -> Leaf("ok", v)
-           [] v.t \in {"int", "flt", "bool", "enum"} -> Leaf("soft", AnyV)
+           [] v.t \in {"int", "flt", "fx", "bool", "enum"} -> Leaf("soft", AnyV)
            [] OTHER -> Err
     [] n = "ID" ->
          CASE v.t \in {"str", "nstr"} -> Leaf("ok", v)
            [] v.t = "int" -> IF Within(v.c, "min64", "max64") THEN Leaf("ok", NS(v.c)) ELSE Leaf("soft", NS(v.c))
-           [] v.t \in {"flt", "bool", "enum"} -> Leaf("soft", AnyV)
+           [] v.t \in {"flt", "fx", "bool", "enum"} -> Leaf("soft", AnyV)
            [] OTHER -> Err
     [] n = "Boolean" ->
          CASE v.t = "bool" -> Leaf("ok", v)
-           [] v.t \in {"str", "nstr", "int", "flt", "enum"} -> Leaf("soft", AnyV)
+           [] v.t \in {"str", "nstr", "int", "flt", "fx", "enum"} -> Leaf("soft", AnyV)
            [] OTHER -> Err
     [] n = "E" ->
          CASE v.t = "enum" -> IF v.v \in EnumNames THEN Leaf("ok", v) ELSE Err
@@ -159,9 +194,11 @@ CoerceScalar(n, v, lit) ==
 (***************************************************************************)
 (* Input coercion of a PRESENT value v for type T at path p                *)
 (***************************************************************************)
-R(v, fl, so) == [v |-> v, faults |-> fl, soft |-> so]
-None == [vs |-> <<>>, faults |-> {}, soft |-> {}]
-Cons(h, r) == [vs |-> <<h.v>> \o r.vs, faults |-> h.faults \cup r.faults, soft |-> h.soft \cup r.soft]
+R4(v, fl, so, df) == [v |-> v, faults |-> fl, soft |-> so, dfl |-> df]
+R(v, fl, so) == R4(v, fl, so, {})
+None == [vs |-> <<>>, faults |-> {}, soft |-> {}, dfl |-> {}]
+Cons(h, r) == [vs |-> <<h.v>> \o r.vs, faults |-> h.faults \cup r.faults, soft |-> h.soft \cup r.soft,
+               dfl |-> h.dfl \cup r.dfl]
 
 HasField(fs, k) == \E i \in 1..Len(fs) : fs[i].k = k
 FieldVal(fs, k) == IF HasField(fs, k) THEN fs[CHOOSE i \in 1..Len(fs) : fs[i].k = k].v ELSE Absent
@@ -188,27 +225,30 @@ CoerceFields(defs, fs, p, lit, i) ==
            \* a value that came through a variable is JSON-carried
            fl  == IF fv.t = "var" THEN FALSE ELSE lit
            h   == IF raw.t = "absent"
-                  THEN (IF d.def.t # "nodef" THEN CoerceIn(d.type, d.def, pp, TRUE)     \* default injected
+                  THEN (IF d.def.t # "nodef"                                             \* default injected
+                        THEN (LET dv == CoerceIn(d.type, d.def, pp, TRUE) IN [dv EXCEPT !.dfl = {pp} \cup dv.dfl])
                         ELSE IF d.type.nn THEN R(Bad, {pp}, {})                          \* required field missing
                         ELSE R(Absent, {}, {}))                                          \* no entry
                   ELSE CoerceIn(d.type, raw, pp, fl)                                     \* explicit null stays null
            r   == CoerceFields(defs, fs, p, lit, i + 1)
-       IN  [vs |-> <<KV(d.name, h.v)>> \o r.vs, faults |-> h.faults \cup r.faults, soft |-> h.soft \cup r.soft]
+       IN  [vs |-> <<KV(d.name, h.v)>> \o r.vs, faults |-> h.faults \cup r.faults, soft |-> h.soft \cup r.soft,
+            dfl |-> h.dfl \cup r.dfl]
 
 CoerceIn(T, v0, p, lit) ==
   LET v == Norm(v0, lit) IN
   IF v.t = "null" THEN (IF T.nn THEN R(Bad, {p}, {}) ELSE R(Null, {}, {}))
   ELSE IF T.k = "l"
   THEN (IF v.t = "list"
-        THEN LET r == CoerceElems(T.of, v.e, p, lit, 1) IN R(Ls(r.vs), r.faults, r.soft)
+        THEN LET r == CoerceElems(T.of, v.e, p, lit, 1) IN R4(Ls(r.vs), r.faults, r.soft, r.dfl)
         \* a single non-null value is the list of that one value (nested lists: the item is coerced again)
-        ELSE LET h == CoerceIn(T.of, v, p \o <<"0">>, lit) IN R(Ls(<<h.v>>), h.faults, h.soft))
+        ELSE LET h == CoerceIn(T.of, v, p \o <<"0">>, lit) IN R4(Ls(<<h.v>>), h.faults, h.soft, h.dfl))
   ELSE IF T.n \in InputNames
   THEN (IF v.t # "obj" THEN R(Bad, {p}, {})
         ELSE LET unk == {p \o <<v.f[i].k>> : i \in {j \in 1..Len(v.f) : v.f[j].k \notin FieldNames(T.n)}}
                  r   == CoerceFields(InputDef[T.n], v.f, p, lit, 1)
-             IN  R(O(r.vs), r.faults \cup unk, r.soft))
-  ELSE IF T.n = "Any" THEN R(v, {}, {})
+             IN  R4(O(r.vs), r.faults \cup unk, r.soft, r.dfl))
+  \* Any, and K (a scalar whose Go unmarshaler reports which Go carrier it was handed): identity
+  ELSE IF T.n \in {"Any", "K"} THEN R(v, {}, {})
   ELSE LET l == CoerceScalar(T.n, v, lit) IN
        CASE l.r = "ok"   -> R(l.v, {}, {})
          [] l.r = "soft" -> R(l.v, {}, {p})
@@ -276,7 +316,9 @@ ASSUME ViewKeeps("omit") /\ ViewKeeps("map") /\ ~ViewKeeps("struct")
 (***************************************************************************)
 (* The probe's argument shapes: one query field  <id>(x: <type> [= def])   *)
 (***************************************************************************)
-Sh(id, type, def, dir) == [id |-> id, type |-> type, def |-> def, dir |-> dir]
+Sh(id, type, def, dir)  == [id |-> id, type |-> type, def |-> def, dir |-> dir, fdir |-> NoDef]
+ShX(id, type, def, app) == [id |-> id, type |-> type, def |-> def, dir |-> FALSE, fdir |-> app]
+FloatNN == NN(Nm("Float"))
 IntNN == NN(Nm("Int"))
 Shapes == <<
   Sh("f1",  Nm("Int"), NoDef, FALSE),
@@ -312,8 +354,62 @@ Shapes == <<
   Sh("f31", Nm("Int"), NoDef, TRUE),
   Sh("f32", IntNN, I("seven"), TRUE),
   Sh("f33", L(IntNN), NoDef, TRUE),
-  Sh("f34", Nm("InO"), NoDef, TRUE)
+  Sh("f34", Nm("InO"), NoDef, TRUE),
+  \* Float defaults of arguments (read from the parsed schema at run time) ...
+  Sh("f35", Nm("Float"), FX("fine7"), FALSE),
+  Sh("f36", FloatNN, FX("tiny"), FALSE),
+  Sh("f37", L(FloatNN), Ls(<<FX("fineBig"), F("five", FALSE), FX("denorm")>>), FALSE),
+  \* ... of input fields (rendered into the generated Go source): struct / Omittable, map-backed,
+  \* below an argument's object default (u given, the rest defaulted; o given without m and g)
+  Sh("f38", Nm("Fl"), NoDef, FALSE),
+  Sh("f39", Nm("FlM"), NoDef, FALSE),
+  Sh("f40", Nm("Fl"), O(<<KV("u", FX("huge")), KV("o", O(<<KV("n", FX("tiny"))>>))>>), FALSE),
+  \* ... and of the arguments of @dflt applied to an argument: every value written / every value defaulted
+  ShX("f41", Nm("Float"), FX("maxF"),
+      O(<<KV("v", FX("fine7")), KV("w", FX("tiny")), KV("z", FX("huge")), KV("k", F("one", TRUE))>>)),
+  ShX("f42", IntNN, I("seven"), O(<<>>))
 >>
+
+(***************************************************************************)
+(* The directive @dflt(tag: String, v: Float, w: Float = 123456.7890123,   *)
+(* z: Float! = 1e-7, k: K = 5.0) applied in the SCHEMA (argument and input *)
+(* field definitions).  Its arguments are coerced like every argument list *)
+(* (6.4.1): a written value is that value, a missing one takes the         *)
+(* definition's default, else stays absent.  The directive passes the      *)
+(* value through; what it RECEIVES at each site must be DirSees.  (tag     *)
+(* names the site; the harness writes it.)                                 *)
+(***************************************************************************)
+DfltArgs == << Fd("v", Nm("Float"), NoDef, FALSE),
+               Fd("w", Nm("Float"), FX("fineBig"), FALSE),
+               Fd("z", FloatNN, FX("tiny"), FALSE),
+               Fd("k", Nm("K"), F("five", FALSE), FALSE) >>
+DirSees(app) == CoerceFields(DfltArgs, app.f, <<>>, TRUE, 1)
+Site(ty, fld, app) == [ty |-> ty, fld |-> fld, app |-> app, sees |-> O(DirSees(app).vs)]
+RECURSIVE ShapeSites(_), FieldSites(_, _), InputSites(_)
+ShapeSites(i) == IF i > Len(Shapes) THEN <<>>
+                 ELSE (IF Shapes[i].fdir.t = "nodef" THEN <<>> ELSE <<Site("Query", Shapes[i].id, Shapes[i].fdir)>>)
+                      \o ShapeSites(i + 1)
+FieldSites(n, i) == IF i > Len(InputDef[n]) THEN <<>>
+                    ELSE (IF InputDef[n][i].fdir.t = "nodef" THEN <<>>
+                          ELSE <<Site(n, InputDef[n][i].name, InputDef[n][i].fdir)>>) \o FieldSites(n, i + 1)
+InputSites(j) == IF j > Len(InputSeq) THEN <<>> ELSE FieldSites(InputSeq[j], 1) \o InputSites(j + 1)
+DirSites == ShapeSites(1) \o InputSites(1)
+\* every application is coercible; a written argument arrives as written, a missing one as the default / absent
+DirSitesOK ==
+  /\ Len(DirSites) >= 4
+  /\ \A i \in 1..Len(DirSites) :
+       LET st == DirSites[i]
+           r  == DirSees(st.app) IN
+       /\ r.faults = {} /\ r.soft = {}
+       /\ \A j \in 1..Len(DfltArgs) :
+            LET d == DfltArgs[j] IN
+            /\ st.sees.f[j].k = d.name
+            /\ st.sees.f[j].v = (IF HasField(st.app.f, d.name) THEN FieldVal(st.app.f, d.name)
+                                  ELSE IF d.def.t # "nodef" THEN d.def ELSE Absent)
+  \* both ways of obtaining a value occur for every argument of the directive
+  /\ \A j \in 1..Len(DfltArgs) : /\ (\E k1 \in 1..Len(DirSites) : HasField(DirSites[k1].app.f, DfltArgs[j].name))
+                                   /\ (\E k2 \in 1..Len(DirSites) : ~HasField(DirSites[k2].app.f, DfltArgs[j].name))
+ASSUME DirSitesOK
 
 (***************************************************************************)
 (* The bounded value universe                                              *)
@@ -328,7 +424,7 @@ ScalarVals(n) ==
   CASE n \in IntTargets -> NumVals \cup WrongKinds \cup {Null}
     [] n = "Float"   -> {I(c) : c \in {"m1", "zero", "one", "max32", "gtMax32", "gtMaxU32"}} \cup
                         {F("one", TRUE), F("one", FALSE), F("gtMax32", TRUE), NS("seven"), S("abc"), B("true"),
-                         Ls(<<F("one", TRUE)>>), O(<<>>), Null}
+                         Ls(<<F("one", TRUE)>>), O(<<>>), Null, F("five", FALSE)} \cup {FX(c) : c \in FloatNames}
     [] n = "String"  -> {S("abc"), S(""), NS("seven"), I("one"), F("one", TRUE), B("true"), En("B"),
                          Ls(<<S("abc")>>), O(<<>>), Null}
     [] n = "ID"      -> {S("abc"), NS("seven"), F("one", TRUE), B("true"), Null, O(<<>>), Ls(<<S("abc")>>)} \cup
@@ -340,12 +436,24 @@ ScalarVals(n) ==
     [] n = "Any"     -> {I("one"), I("max64"), I("gtMax64"), F("one", TRUE), S("abc"), B("true"), Null,
                          Ls(<<I("one"), S("abc")>>), O(<<KV("k", I("one"))>>)}
 
-\* objects: the base object {b: 1} with up to one / two fields deviating
+\* objects: the base object {b: 1} ({k: 1} for the Float-default inputs) with up to one / two fields deviating
+\* (Inner and FlIn occur as field values only)
+FlLike == {"Fl", "FlM"}
 Alts(n) ==
   IF n = "Inner"
   THEN [p |-> {Null, I("one")},
         q |-> {Absent, Null, I("two")},
         l |-> {Null, I("one"), Ls(<<I("one"), Null>>)}]
+  ELSE IF n \in FlLike
+  THEN [u |-> {Null, FX("huge"), F("one", TRUE), I("one"),
+               Vr(Absent, NoDef), Vr(Absent, FX("fineBig")), Vr(FX("tiny"), NoDef), Vr(Null, NoDef)},
+        v |-> {Null, FX("fine7"), Vr(Absent, FX("negFine"))},
+        w |-> {Null, Ls(<<>>), FX("tiny"), Ls(<<FX("fine7"), FX("maxF")>>)},
+        o |-> {Null, O(<<>>), O(<<KV("m", Null)>>), O(<<KV("m", FX("huge")), KV("n", FX("denorm"))>>),
+               O(<<KV("g", FX("tiny")), KV("zz", I("one"))>>)},
+        y |-> {Null, I("one"), F("one", TRUE)},
+        h |-> {Null, FX("fine7")},
+        zz |-> {I("one")}]
   ELSE [a |-> {Null, I("one"), I("gtMax32"), I("gtMax64"), S("abc"),
                Vr(Absent, NoDef), Vr(Null, NoDef), Vr(I("two"), NoDef), Vr(Absent, I("three"))},
         b |-> {Absent, Null, I("two"), F("one", TRUE), NS("seven"), Vr(I("two"), NoDef), Vr(Null, I("three"))},
@@ -359,8 +467,11 @@ Alts(n) ==
         s |-> {Null, S("abc"), Vr(Absent, NoDef)},
         r |-> {Null, I("one")},
         zz |-> {I("one")}]
-BaseObj(n) == IF n = "Inner" THEN [q |-> I("one")] ELSE [b |-> I("one")]
-KeyOrder(n) == IF n = "Inner" THEN <<"p", "q", "l">> ELSE <<"a", "b", "c", "d", "e", "s", "r", "zz">>
+BaseObj(n) == IF n = "Inner" THEN [q |-> I("one")]
+              ELSE IF n \in FlLike THEN [k |-> I("one")] ELSE [b |-> I("one")]
+KeyOrder(n) == IF n = "Inner" THEN <<"p", "q", "l">>
+               ELSE IF n \in FlLike THEN <<"k", "u", "v", "w", "o", "y", "h", "zz">>
+               ELSE <<"a", "b", "c", "d", "e", "s", "r", "zz">>
 
 RECURSIVE MkFields(_, _, _)
 \* asg: function key -> value over a subset of the keys; fields are written in KeyOrder
@@ -401,6 +512,7 @@ ElemVals(T) ==
   THEN {Null, I("one"), S("abc"), Ls(<<>>), Ls(<<I("one")>>), Ls(<<I("two"), Null>>), Ls(<<S("abc")>>),
         Ls(<<Ls(<<I("one")>>)>>)}
   ELSE CASE T.n = "Int" -> {I("one"), I("two"), Null, I("gtMax32"), I("gtMax64"), S("abc"), F("one", TRUE)}
+         [] T.n = "Float" -> {F("one", TRUE), FX("fine7"), FX("denorm"), I("one"), Null, S("abc")}
          [] T.n = "E"   -> {En("A"), En("B"), Null, En("Z"), I("one")}
          [] T.n = "In"  -> {O(<<KV("b", I("one"))>>), O(<<KV("b", I("one")), KV("a", Null)>>), O(<<>>), Null, I("one"),
                             O(<<KV("b", I("two")), KV("c", I("one"))>>)}
@@ -425,6 +537,7 @@ VDef(T) ==
          [] T.n = "Boolean" -> B("false")
          [] T.n = "Float" -> F("two", TRUE)
          [] T.n = "E" -> En("A")
+         [] T.n \in FlLike -> O(<<KV("k", I("two")), KV("u", FX("fineBig"))>>)
          [] OTHER -> O(<<KV("b", I("two"))>>)
 
 \* a few values for the sources that are about defaults and nullability, not about the value
@@ -436,6 +549,7 @@ Good(T) ==
          [] T.n = "Boolean" -> B("true")
          [] T.n = "Float" -> F("one", TRUE)
          [] T.n = "E" -> En("B")
+         [] T.n \in FlLike -> O(<<KV("k", I("one")), KV("u", Null)>>)
          [] OTHER -> O(<<KV("b", I("one")), KV("a", Null)>>)
 RECURSIVE Wrong(_)
 Wrong(T) == IF T.k = "l" THEN Ls(<<Wrong(T.of)>>)
@@ -445,6 +559,7 @@ Reduced(sh) == {Absent, Null, Good(sh.type), Wrong(sh.type)} \cup
 
 F64Classes == FloatExact \cup {"gtMax64"}
 F64Vals == {Absent, Null, F("one", TRUE), F("one", FALSE), F("max32", TRUE)} \cup {I(c) : c \in F64Classes \cap Boundary}
+F64FloatVals == {FX(c) : c \in FloatNames}
 
 CasesOf(sh) ==
   LET T == sh.type
@@ -453,6 +568,7 @@ CasesOf(sh) ==
   IN  mk(Lit, all)
       \cup mk(Var("num", "same", NoDef), {v \in all : ~HasVar(v)})
       \cup (IF T.k = "n" /\ T.n \in IntTargets \cup {"Float", "ID"} THEN mk(Var("f64", "same", NoDef), F64Vals) ELSE {})
+      \cup (IF T.k = "n" /\ T.n = "Float" THEN mk(Var("f64", "same", NoDef), F64FloatVals) ELSE {})
       \cup mk(Var("num", "same", VDef(T)), Reduced(sh))
       \* a nullable variable may be used where a non-null argument has a default / the variable has one
       \cup (IF T.nn /\ sh.def.t # "nodef" THEN mk(Var("num", "nullable", NoDef), Reduced(sh)) ELSE {})
@@ -531,12 +647,12 @@ TDefault(c, o) ==
 \* T4: numeric classes are preserved or rejected, never mapped to another class
 RECURSIVE NumCls(_), NumClsSeq(_, _)
 NumClsSeq(s, i) == IF i > Len(s) THEN {} ELSE NumCls(IF "k" \in DOMAIN s[i] THEN s[i].v ELSE s[i]) \cup NumClsSeq(s, i + 1)
-NumCls(v) == CASE v.t \in {"int", "flt", "nstr"} -> {v.c}
+NumCls(v) == CASE v.t \in {"int", "flt", "nstr", "fx"} -> {v.c}
                [] v.t = "list" -> NumClsSeq(v.e, 1)
                [] v.t = "obj"  -> NumClsSeq(v.f, 1)
                [] v.t = "var"  -> NumCls(v.v) \cup NumCls(v.d)
                [] OTHER -> {}
-SchemaClasses == {"one", "two", "three", "five", "seven"}     \* the defaults of the schema and of the variables
+SchemaClasses == {"one", "two", "three", "five", "seven"} \cup FloatNames    \* the defaults of the schema and of the variables
 TNumeric(c, o) == o.faults = {} => NumCls(o.v) \subseteq NumCls(c.val) \cup SchemaClasses
 
 NumInputs == {I(c) : c \in Classes} \cup {NS(c) : c \in Classes} \cup {F(c, fr) : c \in Classes, fr \in BOOLEAN}
@@ -551,8 +667,23 @@ ScalarGridOK ==
 ASSUME ScalarGridOK
 
 \* faults and soft positions are below the argument; a fault excludes a value
-TShape(o) == /\ \A p \in o.faults \cup o.soft : p \in Seq(STRING)
+TShape(o) == /\ \A p \in o.faults \cup o.soft \cup o.dfl : p \in Seq(STRING)
              /\ (o.faults # {} \/ ~HasTag(o.v, "bad"))
+
+\* T6: a position marked "field default injected" exists in the value, is not absent, names an input field
+\* that HAS a default, and carries schema numbers only
+RECURSIVE At(_, _)
+At(v, p) == IF p = <<>> THEN v
+            ELSE IF v.t = "list"
+            THEN (IF \E i \in 1..Len(v.e) : ToString(i - 1) = Head(p)
+                  THEN At(v.e[CHOOSE i \in 1..Len(v.e) : ToString(i - 1) = Head(p)], Tail(p)) ELSE Bad)
+            ELSE IF v.t = "obj" /\ HasField(v.f, Head(p)) THEN At(FieldVal(v.f, Head(p)), Tail(p))
+            ELSE Bad
+DefaultedFields == UNION { {InputDef[n][i].name : i \in {j \in 1..Len(InputDef[n]) : InputDef[n][j].def.t # "nodef"}} : n \in InputNames }
+TDfl(o) == o.faults = {} =>
+             \A p \in o.dfl : /\ Len(p) > 0 /\ p[Len(p)] \in DefaultedFields
+                               /\ At(o.v, p).t \notin {"absent", "bad"}
+                               /\ NumCls(At(o.v, p)) \subseteq SchemaClasses
 
 Done == pc = "done"
 Thm_Idem    == Done => TIdem(cs.sh, out)
@@ -560,6 +691,7 @@ Thm_Wrap    == Done => TWrap(cs, out)
 Thm_Default == Done => TDefault(cs, out)
 Thm_Numeric == Done => TNumeric(cs, out)
 Thm_Shape   == Done => TShape(out)
+Thm_Dfl     == Done => TDfl(out)
 
 (***************************************************************************)
 (* Behaviour                                                               *)
@@ -574,14 +706,17 @@ Spec == Init /\ [][Next]_vars
 
 EmitEdge == (Emit /\ pc' = "done") =>
   PrintT(ToJson([shape |-> cs.sh.id, src |-> cs.src, val |-> cs.val, origin |-> Origin(cs.sh, cs.src, cs.val),
-                 out |-> [ok |-> out'.faults = {}, v |-> out'.v, faults |-> out'.faults, soft |-> out'.soft]]))
+                 out |-> [ok |-> out'.faults = {}, v |-> out'.v, faults |-> out'.faults, soft |-> out'.soft,
+                          dfl |-> out'.dfl]]))
 
 \* the scalar grid for the in-process drive of graphql.Unmarshal*
 GridTargets == IntTargets \cup {"Float", "ID", "String", "Boolean"}
 Grid == { [n |-> n, val |-> v, out |-> CoerceScalar(n, v, FALSE)] : n \in GridTargets,
           v \in NumInputs \cup {S("abc"), B("true")} }
+        \cup { [n |-> n, val |-> FX(c), out |-> CoerceScalar(n, FX(c), FALSE)] : n \in {"Float", "Int", "I64"}, c \in FloatNames }
 EmitSchema == PrintT(ToJson([shapes |-> Shapes, inputs |-> InputDef, binds |-> InputBind, views |-> ViewTable,
-                             classes |-> ClassSeq, enum |-> EnumNames, ranges |-> NumRange]))
+                             classes |-> ClassSeq, enum |-> EnumNames, ranges |-> NumRange,
+                             floats |-> FloatNames, dirdef |-> DfltArgs, dirsites |-> DirSites]))
               /\ PrintT(ToJson([grid |-> Grid]))
 ASSUME Emit => EmitSchema
 =============================================================================
